@@ -668,6 +668,8 @@ def classify(op, status, detail, ops_before):
         s0 = " || ".join(detail or [])
         if "pyppmd.Ppmd7Decoder(" in s0 or "pyppmd.Ppmd8Decoder(" in s0:
             return ("crash", "ppmd-mem-alloc-failure")
+        if detail and detail[0].startswith("PpmdDecompressor.decompress"):
+            return ("crash", "ppmd-decoder-race")        # pyppmd's decoder thread: third-party race, see C01-ppmd-decoder-race-*
         return ("crash", "child-" + (detail[0].split("|")[0] if detail else "no-python-frame"))
     sites = detail.get("sites", []) if isinstance(detail, dict) else list(detail or [])
     s = " || ".join(sites)
@@ -677,6 +679,10 @@ def classify(op, status, detail, ops_before):
             stale = True
         elif o == "reset":
             stale = False
+    if sites and sites[0].startswith("PpmdDecompressor.decompress"):
+        # the innermost Python frame is the call into pyppmd's decoder (which runs its own thread): a crash or a wait that never
+        # ends there is the third-party race recorded under C01-ppmd-decoder-race-*, not a loop of py7zr
+        return ("crash" if status in ("exit", "crash") else "hang", "ppmd-decoder-race")
     if "_read_digest" in s:
         return ("hang", "test-digest-declared-packsize")
     if "read_utf16" in s:
@@ -718,6 +724,8 @@ WHAT = {
     ("quadratic", "packpositions"): "PackInfo._read computes packpositions as sum(packsizes[:i]) for every i: quadratic in numstreams",
     ("quadratic", "bindpairs"): "Folder._read searches the whole bind-pair list for every input stream: quadratic in the number of bonds",
     ("amplify", "names-at-eof"): "read_utf16 iterates 65536 times at end of input, once per DECLARED file",
+    ("crash", "ppmd-decoder-race"): "pyppmd's decoder thread crashes the interpreter (third-party race, rare)",
+    ("hang", "ppmd-decoder-race"): "pyppmd's decoder thread deadlocks (third-party race, rare)",
     ("crash", "ppmd-mem-alloc-failure"): "PpmdDecompressor passes the archive's PPMd memory size (up to 4 GB, 4 bytes of coder "
                                          "properties) unchecked to pyppmd; when that allocation fails pyppmd aborts the process "
                                          "(double free): the interpreter does not survive",
